@@ -103,16 +103,18 @@ def gen_source(rng, hazardous=True) -> Src:
                 s._dict_counter += 1
                 nd = s._dict_counter
                 s.lines.append(ind(depth) + k)
-                s.lines.append(ind(depth) + "{")
+                glue_open = rng.random() < 0.15
+                s.lines.append(ind(depth) + "{" + (lc(nd, depth + 1) if glue_open else ""))      # {// first in the dict
                 body(nd, depth + 1)
-                s.lines.append(ind(depth) + "}")
+                s.lines.append(ind(depth) + "}" + (lc(did, depth) if rng.random() < 0.15 else ""))   # }// after the dict
             elif r < 0.3:
                 s.lines.append(ind(depth) + k + " (1 2 'a b');")
             else:
                 v = native.dictio().NativeFormatter().format_value(gen.dom_scalar(rng))
                 line = ind(depth) + k + "  " + v + ";"
                 if rng.random() < 0.3:
-                    line += " " + lc(did, depth)
+                    # a blank, a tab, or nothing between the statement and the comment (a 1;// note)
+                    line += rng.choice([" ", " ", "\t", "", ""]) + lc(did, depth)
                 s.lines.append(line)
             r2 = rng.random()
             if r2 < 0.2:
